@@ -620,7 +620,11 @@ class Explorer:
             try:
                 self.verify_path(P, c, info, case, res)
             except PathInfeasible:
-                continue
+                # the path died (an assumption became false).  Obligations emitted BEFORE that point
+                # (e.g. a callee precondition that is concretely False) must still be discharged.
+                if not P.obligations:
+                    continue
+                res.outcome = 'infeasible-after-obligation'
             except Unsupported as e:
                 unsupported.append(str(e))
                 continue
